@@ -364,8 +364,9 @@ def check_filter_histories(ctx):
         pass
     levels = types.SimpleNamespace(debug=0, info=1, warn=2, iterconstants=lambda: [0, 1, 2])
     results = types.SimpleNamespace(yes="yes", no="no", maybe="maybe")
-    it = Interp({"LogLevel": levels, "InvalidLogLevelError": InvalidLogLevelError, "PredicateResult": results}, budget=3000000)
-    it.load(mod, only={"LogLevelFilterPredicate"})
+    it = Interp({}, budget=3000000)
+    it.load(mod)
+    it.globals.update({"LogLevel": levels, "InvalidLogLevelError": InvalidLogLevelError, "PredicateResult": results, "implementer": lambda *a: (lambda x: x)})
     ctx.need("LogLevelFilterPredicate" in it.globals, "class LogLevelFilterPredicate")
     cls = it.globals["LogLevelFilterPredicate"]
     for meth in ("logLevelForNamespace", "setLogLevelForNamespace", "clearLogLevels", "__call__"):
@@ -962,5 +963,10 @@ SILENT = [
            "        others = []\n        for each in self._observers:\n            if each is observer:\n                continue\n            others.append(each)\n        errorPublisher = LogPublisher(*others)\n"),
     Silent("replay-through-module-helper", BUF, "        for event in self._buffer:\n            otherObserver(event)", "        _each(self._buffer, otherObserver)\n\n\ndef _each(items, sink):\n    for item in items:\n        sink(item)"),
     Silent("level-stored-under-computed-key", FIL, _E_SET_OLD, "        where = namespace or \"\"\n        self._logLevelsByNamespace[where] = level\n"),
+    Silent("prefixes-from-a-private-generator", FIL, _E_LOOKUP_OLD,
+           "        for candidate in _outward(namespace):\n            if candidate in self._logLevelsByNamespace:\n                return self._logLevelsByNamespace[candidate]\n        return self._logLevelsByNamespace[\"\"]\n",
+           more=[(FIL, "class PredicateResult(Names):\n", "def _outward(name):\n    parts = name.split(\".\")\n    while len(parts) > 1:\n        parts.pop()\n        yield \".\".join(parts)\n\n\nclass PredicateResult(Names):\n")]),
+    Silent("remove-observer-with-suppress", OBS, "        try:\n            self._observers.remove(observer)\n        except ValueError:\n            pass\n",
+           "        with suppress(ValueError):\n            self._observers.remove(observer)\n", more=[(OBS, "from typing import Callable, Optional\n", "from contextlib import suppress\nfrom typing import Callable, Optional\n")]),
     Silent("history-positional-deque", BUF, "deque(maxlen=size)", "deque([], size)"),
 ]
